@@ -487,6 +487,11 @@ fn explore<E: Elem, const K: usize>(ctx: &mut Ctx, tot: &mut Totals, unit: &mut 
 where
     Const<K>: IntoArrayLength,
 {
+    if let Some(m) = ctx.extra.get("maxn").and_then(|s| s.parse::<usize>().ok()) {
+        if K > m && ctx.only.is_none() {
+            return;
+        }
+    }
     let my = *unit;
     *unit += 1;
     let prefix = format!("C06;K={K};E={};", E::NAME);
